@@ -8,8 +8,11 @@ package storage
 
 import (
 	"bytes"
+	"context"
 
 	"github.com/tokenized/pkg/bitcoin"
+	"github.com/tokenized/pkg/storage"
+	"github.com/tokenized/spynode/pkg/client"
 )
 
 func verifRoundTripUnconfirmed(tx *unconfirmedTx, txid *bitcoin.Hash32) (bitcoin.Hash32, *unconfirmedTx, *bytes.Buffer, error) {
@@ -19,4 +22,13 @@ func verifRoundTripUnconfirmed(tx *unconfirmedTx, txid *bitcoin.Hash32) (bitcoin
 	}
 	id, tx2, err := readUnconfirmedTx(buf, 0)
 	return id, tx2, buf, err
+}
+
+// verifSaveFetchTxState stores a delivered transaction with the real SaveTxState and fetches it
+// back by its txid with the real FetchTxState.
+func verifSaveFetchTxState(ctx context.Context, store storage.Storage, tx *client.Tx) (*client.Tx, error) {
+	if err := SaveTxState(ctx, store, tx); err != nil {
+		return nil, err
+	}
+	return FetchTxState(ctx, store, *tx.Tx.TxHash())
 }
